@@ -197,6 +197,14 @@ func genSched(r *simcore.RNG, victims []string) Sched {
 		if len(victims) > 0 {
 			s.Policy = "starve"
 			s.Victim = pick(r, victims)
+			// a third slow rather than stopped; a third stopped but let through whenever
+			// another goroutine is at one particular instrumented code location
+			switch r.Intn(3) {
+			case 0:
+				s.Leak = pick(r, []int{4, 16, 64, 256})
+			case 1:
+				s.Trig = 1 + r.Intn(12)
+			}
 		} else {
 			s.Policy = "uniform"
 		}
@@ -341,6 +349,15 @@ func planC11(tier string, root *simcore.RNG) *plan {
 		id++
 		pl.scenarios = append(pl.scenarios, sc)
 	}
+	// trigger sweep: the consumer (thorough: also the renderer) is held back and let
+	// through exactly when another goroutine is parked at the k-th distinct
+	// instrumented code location, for every k (ordering bugs of depth two: "B's
+	// event between two particular statements of A")
+	if tier != "replay" {
+		for _, sc := range triggerSweep(root, "C11", "pipeline", sinks, tier) {
+			pl.scenarios = append(pl.scenarios, sc)
+		}
+	}
 	// large outputs: counts around 2^16 (and 2^17, thorough 2^20) for every sink
 	if tier != "replay" {
 		reps := 1
@@ -366,6 +383,9 @@ func planC11(tier string, root *simcore.RNG) *plan {
 				delete(sc.Sites, "auto")
 				sc.Sched = genSched(r, victims)
 				sc.StepCap = 4000000
+				if r.Intn(2) == 0 {
+					sc.Env.Race = true
+				}
 				pl.scenarios = append(pl.scenarios, sc)
 			}
 		}
@@ -402,4 +422,38 @@ func planC11(tier string, root *simcore.RNG) *plan {
 	pl.real = []string{"sdf.Triangle3Buffer/Line2Buffer", "sdf.WriteTriangles", "render.ToTriangles/ToSTL/To3MF/ToDXF/ToSVG and their writer goroutines", "os file system (tmpfs/ext4 under $TMPDIR)", "real renderers in ~1/8 of the episodes"}
 	pl.stubs = []string{"scripted Render3/Render2 producers (harness)", "goroutine scheduling choice (simulator)"}
 	return pl
+}
+
+// triggerSweep: see planC11.
+func triggerSweep(root *simcore.RNG, prop, family string, sinks []string, tier string) []*Scenario {
+	var out []*Scenario
+	victims := []string{"consumer"}
+	reps := 1
+	if tier == "thorough" {
+		victims = []string{"consumer", "renderer"}
+		reps = 3
+	}
+	for _, sink := range sinks {
+		for _, vic := range victims {
+			for k := 1; k <= 14; k++ {
+				for rep := 0; rep < reps; rep++ {
+					r := root.Fork()
+					kind := "script3"
+					n := 1100 + r.Intn(900)
+					if sink == "dxf" || sink == "svg" {
+						kind = "script2"
+						n = 600 + r.Intn(600)
+					}
+					j := Job{ID: 1, Kind: kind, Sink: sink, N: n, Coords: "index", CoordSeed: r.Uint64(), Batches: genPartition(r, n, 1, pick(r, []string{"fives", "small", "mixed"}))}
+					sites := map[string]uint32{"prod": 1, "close": 1, "write": 1, "auto": 1, "go.start": 1}
+					for _, hs := range sinkSites(sink) {
+						sites[hs] = 1
+					}
+					out = append(out, &Scenario{Prop: prop, Family: family, Seed: r.Uint64(), Env: genEnv(r), Groups: [][]Job{{j}}, Sites: sites,
+						Sched: Sched{Policy: "starve", Victim: vic, Trig: k, Seed: r.Uint64()}, Note: "trigger-sweep"})
+				}
+			}
+		}
+	}
+	return out
 }
